@@ -57,6 +57,49 @@ def bind(chk: Check, tier: str, seed: int):
         chk.violation("caller-list-mutated", f"constructor arguments changed: {lists}")
     if d3.exclude_pgns or d3.exclude_pgns_ids or getattr(d3, "iso_claim_filter", False):
         chk.violation("default-argument-shared", "a decoder constructed without filters has filters after another instance was configured")
+    # the same for a family of constructor arguments: two instances built from the very same argument objects (as on
+    # a reconnect, or when one configuration dict serves several clients); the arguments must come out unchanged and
+    # the second instance must behave like one built from a fresh copy of them
+    import copy
+    import tempfile
+    from nmea2000.consts import PhysicalQuantities as PQ
+    from .. import fastpacket as fp
+    tmpd = tempfile.mkdtemp(dir=str(workdir(PROP + "-ctor")))
+    family = [dict(exclude_pgns=[60928, 127250]), dict(exclude_pgns=["isoAddressClaim", 130306]), dict(exclude_pgns=[60928]),
+              dict(exclude_pgns=[127250, 130306]), dict(include_pgns=[60928, 127250]), dict(include_pgns=["isoAddressClaim"]),
+              dict(include_pgns=[127250]), dict(exclude_pgns=[127250], exclude_manufacturer_code=["Furuno"]),
+              dict(include_manufacturer_code=["Maretron"]), dict(dump_pgns=[60928, "windData"], dump_to_file=tmpd + "/d.jsonl"),
+              dict(preferred_units={PQ.ANGLE: "deg"}), dict(build_network_map=True, exclude_pgns=[60928])]
+    hist = [fp.ebyte_packet(60928, 11, 255, 6, dr.name_payload(1, 1)), fp.ebyte_packet(127250, 11, 255, 2, bytes([1, 0x10, 0x20, 0, 0, 0, 0, 0xFC])),
+            fp.ebyte_packet(130306, 11, 255, 2, bytes([2, 0x11, 0x01, 0x20, 0x03, 0xFA, 0xFF, 0xFF])),
+            fp.ebyte_packet(60928, 12, 255, 6, dr.name_payload(2, 2)), fp.ebyte_packet(127250, 12, 255, 2, bytes([3, 0x12, 0x20, 0, 0, 0, 0, 0xFC])),
+            fp.ebyte_packet(60928, 11, 255, 6, dr.name_payload(2, 1)), fp.ebyte_packet(130306, 11, 255, 2, bytes([4, 0x13, 0x01, 0x20, 0x03, 0xFA, 0xFF, 0xFF]))]
+
+    def outcome(dec):
+        out = []
+        for pk in hist:
+            try:
+                m = dec.decode_tcp(pk)
+                out.append(None if m is None else (m.id, m.source, None if m.source_iso_name is None else m.source_iso_name.name,
+                                                   [(f.id, repr(f.value), f.unit_of_measurement) for f in m.fields]))
+            except Exception as e:         # noqa: BLE001
+                out.append(("raised", type(e).__name__))
+        dec.close()
+        return out
+    for cfg in family:
+        ref = copy.deepcopy(cfg)
+        first, second = NMEA2000Decoder(**cfg), NMEA2000Decoder(**cfg)
+        what = "+".join(sorted(cfg))
+        if cfg != ref:
+            chk.violation(f"caller-argument-mutated/{what}", f"constructor arguments changed from {ref} to {cfg}")
+        o1, o2 = outcome(first), outcome(second)
+        fresh = outcome(NMEA2000Decoder(**copy.deepcopy(ref)))
+        if o2 != fresh or o1 != fresh:
+            k = next(i for i, (x, y, z) in enumerate(zip(o1, o2, fresh)) if x != z or y != z)
+            chk.violation(f"instance-depends-on-earlier-instance/{what}",
+                          f"decoders built from the same arguments {ref} disagree with one built from a fresh copy at step {k + 1}: "
+                          f"first {o1[k] and o1[k][:2]}, second {o2[k] and o2[k][:2]}, fresh {fresh[k] and fresh[k][:2]}")
+    chk.add(constructor_argument_families=len(family))
     bads = sum(1 for t in traces for e in t["evs"] if e["in"]["k"] == "bad")
     trunc = sum(1 for t in traces for e in t["evs"] if e["in"]["k"] == "frame" and not e["in"]["chunk"])
     others = sum(1 for t in traces for e in t["evs"] if e["who"] == "G")
